@@ -315,7 +315,7 @@ var v2Structural = []string{"issuer-not-subject", "verb-broadened", "container-a
 // post-signing defects break one level's (body, signature) pair.
 var v2PostSign = []string{"body", "body", "sig", "forged-issuer", "drop-field", "wire-body", "wire-sig"}
 
-func covers(o v2Level, name string, actor int) bool {
+func covers(o v2Level, actor int) bool {
 	for _, s := range o.Subjects {
 		if s.User == actor || (s.User < 0 && s.NNS == nnsName && actor == 3) {
 			return true
@@ -347,7 +347,7 @@ func applyStructural(t *rapid.T, kind string, chain []v2Level) ([]v2Level, strin
 	switch kind {
 	case "issuer-not-subject":
 		for k := 0; k < nKeys; k++ {
-			if !covers(*o, "", k) {
+			if !covers(*o, k) {
 				c.Issuer = k
 				return chain, kind
 			}
